@@ -1405,6 +1405,11 @@ func (s *c19Counting) Seed(int64) {}
 
 var _ rand.Source = (*c19Counting)(nil)
 
+var (
+	c19PanicMu sync.Mutex
+	c19Panics  []string
+)
+
 // c19Run draws total IDs from g goroutines that start together.
 func c19Run(g, total int) []uu.ID {
 	out := make([]uu.ID, total)
@@ -1415,6 +1420,15 @@ func c19Run(g, total int) []uu.ID {
 		wg.Add(1)
 		go func(part []uu.ID) {
 			defer wg.Done()
+			// a generator corrupted by unsynchronised use may panic inside math/rand: record it as a
+			// finding instead of letting it kill the harness
+			defer func() {
+				if r := recover(); r != nil {
+					c19PanicMu.Lock()
+					c19Panics = append(c19Panics, fmt.Sprint(r))
+					c19PanicMu.Unlock()
+				}
+			}()
 			<-start
 			for i := range part {
 				part[i] = uu.RandomID()
@@ -1436,6 +1450,13 @@ func c19Sort(ids []uu.ID) {
 }
 
 func propC19(c *Ctx) {
+	defer func() {
+		c19PanicMu.Lock()
+		defer c19PanicMu.Unlock()
+		if len(c19Panics) > 0 {
+			c.Fail("C19.concurrent.panic", "", "%d goroutines panicked inside RandomID under concurrent use, first: %s", len(c19Panics), c19Panics[0])
+		}
+	}()
 	oldProcs := runtime.GOMAXPROCS(0)
 	defer runtime.GOMAXPROCS(oldProcs)
 
